@@ -246,16 +246,18 @@ def check(run):
         for elt, it, conds, node in q.accumulations(I, N['work']):
             if it is None or elt is None:
                 continue
-            it = strip_cast(it)
-            if not (isinstance(it, ast.Subscript) and q.unparse(it.value) == N['sdata']):
-                continue
-            # the key: a constant, or a local chosen per kind of composite state
-            for kv, kst in q.alternatives(I, it.slice):
-                if q.const_str(kv) != key:
+            # the iterable: <state dict>[key] directly, or a local chosen per kind of composite state
+            for itv, it_at in q.cases(I, strip_cast(it)):
+                itv = strip_cast(itv)
+                if not (isinstance(itv, ast.Subscript) and q.unparse(itv.value) == N['sdata']):
                     continue
-                ats = guard_atoms(kst if kst is not None else node)
-                if any(klass in a[1] and a[0] == 'truthy' and a[1].startswith('isinstance(') for a in ats) and not conds:
-                    ok_ = True
+                # the key: a constant, or a local chosen per kind of composite state
+                for kv, kst in q.alternatives(I, itv.slice):
+                    if q.const_str(kv) != key:
+                        continue
+                    ats = it_at + guard_atoms(kst if kst is not None else node)
+                    if any(klass in a[1] and a[0] == 'truthy' and a[1].startswith('isinstance(') for a in ats) and not conds:
+                        ok_ = True
         run.check(ok_, r, ii.short, "children under '%s' are imported for %s" % (key, klass), 'children not traversed', I)
     yi = run.fn('import_from_yaml')
     Y = yi.node
